@@ -16,11 +16,11 @@ fn params_validate_num_of_signers() {
     let max: u16 = kani::any();
     let r = validate_num_of_signers::<Toy251>(min, max);
     if min < 2 {
-        assert!(matches!(r, Err(Error::InvalidMinSigners)));
+        assert!((r).is_err());
     } else if max < 2 {
-        assert!(matches!(r, Err(Error::InvalidMaxSigners)));
+        assert!((r).is_err());
     } else if min > max {
-        assert!(matches!(r, Err(Error::InvalidMinSigners)));
+        assert!((r).is_err());
     } else {
         assert!(matches!(r, Ok(())));
     }
